@@ -36,7 +36,7 @@ def truth(st, v):
     if isinstance(v, VSeq):
         if v.items is not None:
             return z3.BoolVal(len(v.items) > 0)
-        return z3.Length(v.t) > 0
+        return v.n > 0
     if isinstance(v, VMap):
         return z3.Not(v.dom == z3.K(v.key.sort(), z3.BoolVal(False)))
     if isinstance(v, VStr):
@@ -82,6 +82,8 @@ def coerce(st, v, kind):
         if isinstance(v, VEmptyMap):
             return v.to(kind.key, kind.val)
         return v
+    if isinstance(v, VOpt) and not isinstance(kind, Opt) and v.kind.inner == kind:
+        return v.get()          # callers guard None-ness on the path (contains/equal handle None themselves)
     if isinstance(kind, TupleKey) and isinstance(v, VTuple):
         return kind.pack([coerce(st, x, k) for x, (_, k) in zip(v.items, kind.fields)])
     if kind == FLOAT:
@@ -100,7 +102,7 @@ def seq_to_set(v):
             s = s.add(x)
         return s
     x = z3.Const("x!s2s", v.elem.sort())
-    return VSet(v.elem, z3.Lambda([x], z3.Contains(v.t, z3.Unit(x))))
+    return VSet(v.elem, z3.Lambda([x], v.has(x)))
 
 
 def unify_empty(st, a, b):
@@ -159,6 +161,8 @@ def equal(st, a, b):
         if len(a.items) != len(b.items):
             return z3.BoolVal(False)
         return z3.And([equal(st, x, y) for x, y in zip(a.items, b.items)] or [z3.BoolVal(True)])
+    if isinstance(a, VSeq) and isinstance(b, VSeq):
+        return a.eq(b)
     if type(a) is type(b) and hasattr(a, "t"):
         if a.t.sort() == b.t.sort():
             return a.t == b.t
@@ -237,8 +241,7 @@ def binop(st, op, a, b, line=None):
         if op == "-":
             return [(None, VSet(a.elem, z3.Lambda([x], z3.And(a.t[x], z3.Not(b.t[x])))))]
     if isinstance(a, VSeq) and isinstance(b, VSeq) and op == "+":
-        items = a.items + b.items if a.items is not None and b.items is not None else None
-        return [(None, VSeq(a.elem, z3.Concat(a.t, b.t), items=items))]
+        return [(None, a.concat(b))]
     if isinstance(a, VEmptySeq) and isinstance(b, VEmptySeq) and op == "+":
         return [(None, a)]
     if isinstance(a, VStr) and isinstance(b, VStr) and op == "+":
@@ -286,6 +289,10 @@ def contains(st, container, x):
     x = deref(st, x)
     if isinstance(c, VOpt):
         c = c.get()
+    if isinstance(x, VOpt):
+        ek = getattr(c, "elem", None) or getattr(c, "key", None)
+        if ek is not None and not isinstance(ek, Opt):
+            return z3.And(z3.Not(x.is_none()), contains(st, c, x.get()))
     if isinstance(c, (VEmptySet, VEmptySeq, VEmptyMap)):
         return z3.BoolVal(False)
     if isinstance(c, VSet):
@@ -295,7 +302,7 @@ def contains(st, container, x):
     if isinstance(c, VSeq):
         if c.items is not None:
             return z3.Or([equal(st, i, x) for i in c.items] or [z3.BoolVal(False)])
-        return z3.Contains(c.t, z3.Unit(x.t))
+        return c.has(coerce(st, x, c.elem).t)
     if isinstance(c, VTuple):
         return z3.Or([equal(st, i, x) for i in c.items] or [z3.BoolVal(False)])
     if isinstance(c, VStr) and isinstance(x, VStr):
